@@ -184,7 +184,9 @@ def stepLine (st : State) (toks : List String) : State × String :=
     | _, _ => (st, "bad-op")
   | ["rt.hole", addr, n] =>
     match parseNat addr, n.toNat? with
-    | some a, some n => (st, accStr (register_block_touches_hole t a n))
+    | some a, some n =>
+      if a ≥ 2 ^ 32 ∨ n ≥ 2 ^ 32 then (st, "bad-op")      -- not a RegisterAddress / RegisterOffset
+      else (st, accStr (register_block_touches_hole t a n))
     | _, _ => (st, "bad-op")
   | ["rt.userinit", k] =>
     -- `register_user_init`: the callback is asked for every register in table order until it reports failure
